@@ -56,7 +56,7 @@ func runSolver(cfg SolverCfg, timeoutS int, file string) (answer, out string, se
 	case "sat", "unsat", "unknown", "timeout":
 		answer = first
 	default:
-		if ctx.Err() != nil {
+		if ctx.Err() != nil || strings.Contains(first, "interrupted by timeout") {
 			answer = "timeout"
 		} else {
 			answer = "error"
